@@ -136,6 +136,14 @@ loop:
 		return "", "", inherited, errors.New("zero length string")
 	}
 
+	if offset == 0 {
+		// end of input reached without a separator: a bare key on the last
+		// line is inherited, like one followed by a newline
+		key = src
+		offset = len(src)
+		inherited = true
+	}
+
 	if inherited && strings.IndexByte(key, ' ') == -1 {
 		p.line++
 	}
